@@ -2,6 +2,7 @@
   Helper lemmas for the round-trip proofs (C06): bytes, integers, stream reads.
 -/
 import PycommProofs.CodecSpec
+import PycommProofs.ArgOf
 namespace Pycomm.RT
 open Pycomm
 
@@ -207,6 +208,22 @@ theorem dictGet_fresh (pre kvs : List (Name × PyVal)) (nm : Name) (v : PyVal)
     exact ih (fun a ha => h a (List.mem_cons_of_mem _ ha))
 
 /-! ### element lists -/
+
+theorem encodeList_congr (f g : PyVal → R Bytes) (vs : List PyVal) (h : ∀ x ∈ vs, f x = g x) :
+    encodeList f vs = encodeList g vs := by
+  induction vs with
+  | nil => rfl
+  | cons x xs ih =>
+    simp only [encodeList, h x List.mem_cons_self, ih (fun y hy => h y (List.mem_cons_of_mem _ hy))]
+
+/-- no STRINGI value is canonical, so a canonical member / element is handed to its codec as it is -/
+theorem argOf_of_canon (t : Ty) (v : PyVal) (h : Canon t v) : argOf t v = v := by
+  apply argOf_of_ne_stringI
+  intro e; subst e; simp [Canon] at h
+
+theorem encodeList_argOf_canon (t : Ty) (vs : List PyVal) (h : ∀ x ∈ vs, Canon t x) :
+    encodeList (fun x => encode t (argOf t x)) vs = encodeList (encode t) vs :=
+  encodeList_congr _ _ vs (fun x hx => by rw [argOf_of_canon t x (h x hx)])
 
 theorem list_roundtrip (f : PyVal → R Bytes) (g : Bytes → R (PyVal × Bytes)) (vs : List PyVal)
     (h : ∀ x ∈ vs, ∃ bs, f x = .ok bs ∧ ∀ rest, g (bs ++ rest) = .ok (x, rest)) :
